@@ -510,6 +510,7 @@ def assumption_scan(entry, prop):
     import ast
     import inspect
     inl, refs, absf, nonrep, loops, splits = set(), set(), set(), [], [], []
+    loops_v = []
     uf = set()
     for modname in entry["modules"]:
         mod = importlib.import_module(modname)
@@ -538,15 +539,16 @@ def assumption_scan(entry, prop):
                         absf.add(tgt)
             if not c.replayable:
                 nonrep.append(c.name)
-            for k in c.loops:
-                loops.append("%s loop %d" % k)
+            for k, ls in c.loops.items():
+                (loops_v if ls.variant else loops).append("%s loop %d" % k)
     return {
         "inlined_callees (verified as part of the caller, not by contract)": sorted(inl),
         "callees_replaced_by_reference_function": sorted(refs),
         "abstraction_functions (assert-pre / havoc / ASSUME-post)": sorted(absf),
         "opaque_uninterpreted_functions": sorted(uf),
         "contracts_without_native_replay": sorted(set(nonrep)),
-        "loops_by_invariant (termination argued, not mechanised)": sorted(set(loops)),
+        "loops_by_invariant (termination argued, not mechanised)": sorted(set(loops) - set(loops_v)),
+        "loops_by_invariant_with_VARIANT (termination discharged as <loop>.variant, relative to A-CLK-PROGRESS: time advances from one turn of a loop to the next)": sorted(set(loops_v)),
     }
 
 
